@@ -48,8 +48,9 @@ Reverse(s) == [i \in 1..Len(s) |-> s[Len(s) + 1 - i]]
 
 (* An operation is a record with all of these fields (the harness logs all of them):
    l = list operand (destination), l2 = source list, x = element operand
-   (destination), x2 = source element; 0 = not used. *)
-BaseOp == [op |-> "", l |-> 0, l2 |-> 0, x |-> 0, x2 |-> 0]
+   (destination), x2 = source element, b = container of connections (Signal.tla),
+   mode = variant of the operation (prefix/postfix step of an iterator); 0 = not used. *)
+BaseOp == [op |-> "", l |-> 0, l2 |-> 0, x |-> 0, x2 |-> 0, b |-> 0, mode |-> 0]
 
 ListOps == {"list_ctor", "list_move_ctor", "list_move_assign", "list_dtor"}
 ElemOps == {"elem_ctor", "elem_move_ctor", "elem_move_assign", "elem_dtor", "unlink"}
@@ -110,6 +111,66 @@ Eff(st, a) ==
 Forward(st, L) == st.member[L]
 Backward(st, L) == Reverse(st.member[L])
 IsEmpty(st, L) == st.member[L] = <<>>
+
+-----------------------------------------------------------------------------
+(* Iterators.  iterator_decl.hpp: "The iterator type of an intrusive list.  This is a
+   bidirectional iterator."  list_decl.hpp declares begin()/end() (const and non-const).
+   Abstractly an iterator denotes an element (x # 0) or the end of list `end`; it is VALID
+   while that element is alive and a member of some list, resp. while that list is alive.
+   Stepping a valid iterator: ++ goes to the following member of the element's list (end after
+   the last), -- to the preceding one (from end: to the last); ++ on end and -- on the first
+   member are not driven (undefined for standard bidirectional iterators).
+   What the documentation does NOT say is whether an iterator survives operations on the list:
+   RingTrace.tla therefore judges an iterator only while it is "fresh" (no membership-changing
+   operation since it was obtained); Ring.tla checks on the model that the pointer-level
+   iterator keeps denoting the same element, with the right neighbours, across operations on
+   other elements (IterRefines). *)
+IterOps == {"iter_begin", "iter_end", "iter_inc", "iter_dec", "iter_drop"}
+NoIter == [held |-> FALSE, end |-> 0, x |-> 0]
+AtElem(e) == [held |-> TRUE, end |-> 0, x |-> e]
+AtEnd(L) == [held |-> TRUE, end |-> L, x |-> 0]
+Dangling == [held |-> TRUE, end |-> 0, x |-> 0]
+
+ListOf(s, e) == IF \E L \in Lists : e \in Range(s.member[L])
+                THEN CHOOSE L \in Lists : e \in Range(s.member[L]) ELSE 0
+IndexOf(q, e) == CHOOSE i \in DOMAIN q : q[i] = e
+
+IterValid(s, it) ==
+  /\ it.held
+  /\ IF it.x # 0 THEN s.elive[it.x] /\ ListOf(s, it.x) # 0
+     ELSE it.end # 0 /\ s.llive[it.end]
+IterList(s, it) == IF it.x # 0 THEN ListOf(s, it.x) ELSE it.end
+IterBegin(s, L) == IF s.member[L] = <<>> THEN AtEnd(L) ELSE AtElem(s.member[L][1])
+CanInc(s, it) == IterValid(s, it) /\ it.x # 0
+CanDec(s, it) == /\ IterValid(s, it)
+                 /\ IF it.x # 0 THEN s.member[ListOf(s, it.x)][1] # it.x ELSE s.member[it.end] # <<>>
+IterInc(s, it) ==
+  LET L == ListOf(s, it.x)
+      q == s.member[L]
+      i == IndexOf(q, it.x)
+  IN IF i = Len(q) THEN AtEnd(L) ELSE AtElem(q[i + 1])
+IterDec(s, it) ==
+  LET L == IterList(s, it)
+      q == s.member[L]
+  IN IF it.x = 0 THEN AtElem(q[Len(q)]) ELSE AtElem(q[IndexOf(q, it.x) - 1])
+
+IterPre(s, it, a) ==
+  CASE a.op \in {"iter_begin", "iter_end"} -> a.l \in Lists /\ s.llive[a.l]
+    [] a.op = "iter_inc" -> CanInc(s, it)
+    [] a.op = "iter_dec" -> CanDec(s, it)
+    [] a.op = "iter_drop" -> it.held
+    [] OTHER -> FALSE
+IterEff(s, it, a) ==
+  CASE a.op = "iter_begin" -> IterBegin(s, a.l)
+    [] a.op = "iter_end" -> AtEnd(a.l)
+    [] a.op = "iter_inc" -> IterInc(s, it)
+    [] a.op = "iter_dec" -> IterDec(s, it)
+    [] OTHER -> NoIter
+(* an operation that destroys what the iterator denotes leaves it dangling (only to be dropped
+   or re-seated); everything else leaves it denoting the same element / end *)
+IterAfter(it, a) ==
+  IF (a.op = "elem_dtor" /\ it.x = a.x /\ it.x # 0) \/ (a.op = "list_dtor" /\ it.end = a.l /\ it.end # 0)
+  THEN Dangling ELSE it
 
 -----------------------------------------------------------------------------
 (* Model: all histories over small constants. *)
